@@ -16,6 +16,7 @@ pub mod c14;
 pub mod c16;
 pub mod c18;
 pub mod c19;
+pub mod c20;
 
 use crate::explore::{Limits, Violation};
 use crate::world::{Outcome, Scenario};
@@ -50,6 +51,7 @@ pub fn sim_check(id: &str, tier: &str, _seed: i64) -> Option<SimCheck> {
         "C16" => Some(c16::build(tier)),
         "C18" => Some(c18::build(tier)),
         "C19" => Some(c19::build(tier)),
+        "C20" => Some(c20::build(tier)),
         _ => None,
     }
 }
